@@ -40,6 +40,15 @@ class Opaque:
         return '?' + self.name
 
 
+class TypedOpaque(Opaque):
+    """an unknown value of a known builtin Python type (isinstance tests against stdlib classes are decided from
+    the stdlib's own class relations)"""
+
+    def __init__(self, pytype):
+        super().__init__('<%s value>' % pytype.__name__)
+        self.pytype = pytype
+
+
 class Obj:
     """abstract node instance: a class name (for getter / class-attribute resolution) and fields"""
 
@@ -92,6 +101,7 @@ class FDE:
         self.effects = []
         self.depth = 0
         self.class_objs = {}     # (class name, attribute) -> Obj : class-level objects such as thread-local slots
+        self.externals = {}      # dotted name -> python object (stdlib classes used in isinstance tests)
 
     # -- public --------------------------------------------------------------------------
     def call(self, fi, *args, **kwargs):
@@ -134,10 +144,16 @@ class FDE:
                     env[k.arg] = kwargs.pop(k.arg)
                 elif d is not None:
                     env[k.arg] = self._ev(d, {}, fi)
+            if a.vararg is not None:
+                env[a.vararg.arg] = tuple(args[len(names):])
+            elif len(args) > len(names):
+                raise Unsupported('too many positional arguments for %s' % fi.qualname)
             if kwargs:
                 if a.kwarg is None:
                     raise Unsupported('unexpected kwargs %s for %s' % (list(kwargs), fi.qualname))
                 env[a.kwarg.arg] = kwargs
+            elif a.kwarg is not None:
+                env[a.kwarg.arg] = {}
             try:
                 self._run(fi.node.body, env, fi)
             except _Return as r:
@@ -287,10 +303,21 @@ class FDE:
                 return {'True': True, 'False': False, 'None': None}[e.id]
             if e.id in self.repo.classes:
                 return ('class', e.id)
+            if e.id in self.externals:
+                return ('ext', self.externals[e.id])
+            if fi is not None and e.id in fi.module.globals and e.id not in self.repo.classes:
+                g = fi.module.globals[e.id]
+                if isinstance(g, (ast.Dict, ast.List, ast.Tuple, ast.Constant, ast.Set)):
+                    key = ('global', fi.module.relpath, e.id)
+                    if key not in self.class_objs:
+                        self.class_objs[key] = self._ev(g, {}, fi)
+                    return self.class_objs[key]
             if e.id in ('list', 'dict', 'tuple', 'str', 'int'):
                 return ('class', e.id)
             raise Unsupported('free name %s in %s' % (e.id, fi.qualname if fi else '?'))
         if isinstance(e, ast.Attribute):
+            if unparse(e) in self.externals:
+                return ('ext', self.externals[unparse(e)])
             if isinstance(e.value, ast.Name) and (e.value.id, e.attr) in self.class_objs:
                 return self.class_objs[(e.value.id, e.attr)]
             ok, v = fold_const(self.repo, e)
@@ -360,6 +387,13 @@ class FDE:
             return tuple(vals) if isinstance(e, ast.Tuple) else vals
         if isinstance(e, ast.JoinedStr):
             return Opaque('fstring')
+        if isinstance(e, ast.Subscript) and isinstance(e.slice, ast.Slice):
+            b = self._ev(e.value, env, fi)
+            if not isinstance(b, (tuple, list)):
+                raise Unsupported('slice of %r' % (b,))
+            lo = self._ev(e.slice.lower, env, fi) if e.slice.lower is not None else None
+            hi = self._ev(e.slice.upper, env, fi) if e.slice.upper is not None else None
+            return b[lo:hi]
         if isinstance(e, ast.Subscript):
             b = self._ev(e.value, env, fi)
             k = self._ev(e.slice, env, fi)
@@ -422,7 +456,11 @@ class FDE:
         args = []
         for a in e.args:
             if isinstance(a, ast.Starred):
-                raise Unsupported('starred argument')
+                v = self._ev(a.value, env, fi)
+                if not isinstance(v, (tuple, list)):
+                    raise Unsupported('starred argument of non-concrete sequence')
+                args.extend(v)
+                continue
             args.append(self._ev(a, env, fi))
         kwargs = {}
         for k in e.keywords:
@@ -454,6 +492,11 @@ class FDE:
                 raise Unsupported('getattr on %r' % (o,))
             if n == 'isinstance':
                 o, c = args
+                cands = list(c) if isinstance(c, (tuple, list)) and c and isinstance(c[0], tuple) else [c]
+                if isinstance(o, TypedOpaque) and all(isinstance(x, tuple) and x and x[0] in ('ext', 'class') for x in cands):
+                    return any((x[0] == 'ext' and issubclass(o.pytype, x[1])) or
+                               (x[0] == 'class' and x[1] in ('list', 'dict', 'tuple', 'str', 'int') and issubclass(o.pytype, {'list': list, 'dict': dict, 'tuple': tuple, 'str': str, 'int': int}[x[1]]))
+                               for x in cands)
                 if isinstance(o, Obj) and isinstance(c, tuple) and c[0] == 'class':
                     return self.repo.is_subclass(o.cls, c[1])
                 raise Unsupported('isinstance(%r, %r)' % (o, c))
@@ -465,6 +508,8 @@ class FDE:
                 return Opaque('enumerate(%s)' % args[0].name)
             if n in ('bool', 'len', 'any', 'all', 'list', 'tuple'):
                 if n == 'bool':
+                    if isinstance(args[0], Obj):
+                        return Opaque('bool(%s)' % args[0].name)
                     return self._truth(args[0])
                 if n in ('any', 'all') and isinstance(args[0], (list, tuple)):
                     vals = [self._truth(a) for a in args[0]]
@@ -476,12 +521,18 @@ class FDE:
                 raise Unsupported('builtin ' + n)
             if n in env and isinstance(env[n], tuple) and env[n] and env[n][0] == 'closure':
                 return self._invoke(env[n][1], args, kwargs)
+            if n in env and isinstance(env[n], tuple) and len(env[n]) == 2 and env[n][0] == 'class':
+                self.effects.append(('instantiate', env[n][1], tuple(args), tuple(sorted(kwargs.items(), key=lambda kv: kv[0]))))
+                return Opaque('instance of ' + env[n][1])
             targets = self.repo.resolve_call(e, fi) if fi is not None else []
             if targets and n not in self.stubs:
                 return self._invoke(targets[0], args, kwargs)
             raise Unsupported('call of %s (unresolved)' % n)
         if isinstance(f, ast.Attribute):
             target = self._ev(f, env, fi)
+            if isinstance(target, tuple) and len(target) == 2 and target[0] == 'class':
+                self.effects.append(('instantiate', target[1], tuple(args), tuple(sorted(kwargs.items(), key=lambda kv: kv[0]))))
+                return Opaque('%s(%s)' % (target[1], ', '.join(getattr(a, 'name', repr(a)) for a in args)))
             if isinstance(target, tuple) and target and target[0] == 'builtinmethod':
                 return Opaque('%s.%s()' % (target[1].name, target[2]))
             if isinstance(target, tuple) and target and target[0] == 'objdictmethod':
